@@ -38,15 +38,20 @@ def point_def(name, pt):
             % (name, len(pt["ion"]), qlist(pt["ion"]), qlist(pt["rec"]), cx, qlit(pt["n_e"]), qlit(pt["n_d"])))
 
 
-def out_term(o, tolname, interp):
-    tol = "(%s + tol_interp)" % tolname if interp else tolname
+def out_term(o, interp, ztol):
+    slack = "tol_interp" if interp else "0"
     if o["kind"] == "frac":
-        return "OFrac %s %s" % (tol, qlist(o["values"]))
+        return "OFrac %s %s" % (slack, qlist(o["values"]))
     if o["kind"] == "dens":
-        return "ODens %s %s %s" % (tol, qlit(o["n_el"]), qlist(o["values"]))
+        return "ODens %s %s %s" % (slack, qlit(o["n_el"]), qlist(o["values"]))
     if o["kind"] == "neut":
-        return "ONeut %s %s %s" % (tol, qll(o["species"]), qlist(o["values"]))
+        return "ONeut %s %s %s %s" % (slack, qlit(ztol if interp else 0), qll(o["species"]), qlist(o["values"]))
     raise AssertionError(o["kind"])
+
+
+def ztol_of(case):
+    """rounding noise of linear interpolation at a knot: relative 1e-12 of the largest density scale of the case"""
+    return 1e-12 * 2.0 * 10.0 ** case["ne_decade"]
 
 
 def plan_cases(ctx):
@@ -112,8 +117,9 @@ def run(ctx):
     ctx.assumptions += [
         "rate tables are positive (CX table non-negative), n_e > 0, donor density >= 0 (rates_ok); the theorems are about "
         "exact rational arithmetic",
-        "lsq_linear is accurate only for well-conditioned tables: the tie uses rates within 1 decade (tol 1e-9) and 2 decades "
-        "(tol 1e-6); wider non-monotone tables are a recorded finding (key %s)" % KNOWN_KEY,
+        "lsq_linear is accurate only while every charge state is populated above ~1e-12 of the total: the tie uses rate tables "
+        "within 1 and 2 decades, tolerance 1e-7 on resolved points; unresolved points are ambiguous (solver output not compared; class decided by the model); "
+        "wider tables are a recorded finding (key %s)" % KNOWN_KEY,
         "equilibrium_map3d_match_plasma_neutrality interpolates cubically between knots: compared on the knots' flux "
         "surfaces only, relative 1e-3",
     ]
@@ -164,13 +170,14 @@ def run(ctx):
             kind = "non-finite" if isinstance(ex, impl.NonFinite) else type(ex).__name__
             crashed.append(case)
             ctx.obligation("case %s (%s, Z=%d) ran" % (case["idx"], case["rep"], case["Z"]), "correspondence", False, traceback.format_exc())
-            ctx.violation("c09:exception:%s:%s" % (kind, case["rep"]),
-                          "entry points raised %s / returned a non-finite value on a valid input (%s case, Z=%d, donor %s): %s"
-                          % (kind, case["rep"], case["Z"], case["donor_mode"], str(ex)[:300]),
-                          {"case": {kk: vv for kk, vv in case.items() if kk not in ("points", "lerp", "eq_neut", "fv")},
-                           "traceback": traceback.format_exc()[-1500:],
-                           "how": "harness/c09_impl.py run_case(case) rebuilds the inputs from case['sub'] (seeded) and calls the entry points"},
-                          found=True)
+            if len(crashed) <= 3:
+              ctx.violation("c09:exception:%s:%s" % (kind, case["rep"]),
+                            "entry points raised %s / returned a non-finite value on a valid input (%s case, Z=%d, donor %s): %s"
+                            % (kind, case["rep"], case["Z"], case["donor_mode"], str(ex)[:300]),
+                            {"case": {kk: vv for kk, vv in case.items() if kk not in ("points", "lerp", "eq_neut", "fv")},
+                             "traceback": traceback.format_exc()[-1500:],
+                             "how": "harness/c09_impl.py run_case(case) rebuilds the inputs from case['sub'] (seeded) and calls the entry points"},
+                            found=True)
             continue
         case["points"] = pts
         for key, val in (("rep", case["rep"]), ("stream", case["stream"]), ("Z", str(case["Z"])),
@@ -203,7 +210,6 @@ def run(ctx):
         lines = ["Require Import Cherab.Common.Qx Cherab.Model.C09_Balance Cherab.Model.C09_Check.", "Open Scope Q_scope."]
         checks, ids = [], []
         for ci, case in enumerate(shard):
-            tolname = impl.STREAMS[case["stream"]]["coq"]
             interp = case["rep"] in ("interp1d", "interp2d", "eqmap")
             names = []
             for k, pt in enumerate(case["points"]):
@@ -211,7 +217,7 @@ def run(ctx):
                 names.append(nm)
                 lines.append(point_def(nm, pt))
             for k, pt in enumerate(case["points"]):
-                outs = [out_term(o, tolname, interp and "@" in o["src"]) for o in pt["outs"]]
+                outs = [out_term(o, interp and "@" in o["src"], ztol_of(case)) for o in pt["outs"]]
                 if pt["matrix"] is not None and (len(pt["ion"]) <= 10 or k == 0):
                     outs.append("OMatrix %s %s" % (qll(pt["matrix"][0]), qlist(pt["matrix"][1])))
                 for le in case.get("lerp", []):
@@ -221,8 +227,8 @@ def run(ctx):
                         sa, sb = le["n_el"]
                     else:
                         sa = sb = le["scale"]
-                    outs.append("OLerp (%s + tol_interp) %s (model_fractions %s) %s %s %s" % (
-                        tolname, qlit(le["w"]), names[le["other"]], qlit(sa), qlit(sb), qlist(le["values"])))
+                    outs.append("OLerp tol_interp %s (model_fractions %s) %s %s %s" % (
+                        qlit(le["w"]), names[le["other"]], qlit(sa), qlit(sb), qlist(le["values"])))
                     dist["lerp_values"] += 1
                 n_outs += len(outs)
                 checks.append("check_point %s [%s]" % (names[k], ";\n    ".join(outs)))
@@ -249,18 +255,21 @@ def run(ctx):
                    lsq_unseen == 0, "%d cases where the number of captured solver calls differs from the number of points" % lsq_unseen)
 
     # ---- failing-input search: the property's statement on the implementation's outputs -------------
-    worst = {"well": 0.0, "wide": 0.0}
+    worst = {"resolved": 0.0, "unresolved": 0.0}
+    n_class = {"resolved": 0, "unresolved": 0}
     nontrivial = 0
     for case, k, pt in all_points:
-        tol = impl.STREAMS[case["stream"]]["tol"]
         interp = case["rep"] in ("interp1d", "interp2d", "eqmap")
-        fails = impl.property_at_point(pt, tol + (impl.TOL_INTERP if interp else 0.0))
+        fails = impl.property_at_point(pt, impl.TOL_INTERP if interp else 0.0, ztol_of(case))
         ex, _ = impl.closed_form(pt["ion"], pt["rec"], pt["cx"], pt["n_e"], pt["n_d"])
+        tol = impl.base_tol(ex) + (impl.TOL_INTERP if interp else 0.0)
+        cls = "resolved" if impl.base_tol(ex) == impl.TOL_RESOLVED else "unresolved"
+        n_class[cls] += 1
         if max(ex) < F(99, 100):
             nontrivial += 1
         for o in pt["outs"]:
             if o["kind"] == "frac":
-                worst[case["stream"]] = max(worst[case["stream"]], float(max(abs(F(a) - b) for a, b in zip(o["values"], ex))))
+                worst[cls] = max(worst[cls], float(max(abs(F(a) - b) for a, b in zip(o["values"], ex))))
         # donor sensitivity: with a donor the neutral fraction must be the with-donor one, not the no-donor one
         if pt["cx"] is not None and pt["n_d"] > 0:
             ex0, _ = impl.closed_form(pt["ion"], pt["rec"], None, pt["n_e"], 0.0)
@@ -285,7 +294,7 @@ def run(ctx):
                 exo, _ = impl.closed_form(po["ion"], po["rec"], po["cx"], po["n_e"], po["n_d"])
                 sa, sb = (F(le["n_el"][0]), F(le["n_el"][1])) if le["scale"] is None else (F(le["scale"]), F(le["scale"]))
                 want = [(1 - le["w"]) * a * sa + le["w"] * b * sb for a, b in zip(ex, exo)]
-                if max(abs(F(v) - wv) for v, wv in zip(le["values"], want)) > F(tol + impl.TOL_INTERP) * max(sa, sb):
+                if max(abs(F(v) - wv) for v, wv in zip(le["values"], want)) > F(max(tol, impl.base_tol(exo) + impl.TOL_INTERP)) * max(sa, sb):
                     fails.append(("value of an interpolated / equilibrium-mapped entry point differs from the balance solution",
                                   "%s: %s vs %s" % (le["src"], le["values"][:4], [float(v) for v in want[:4]])))
         # equilibrium-mapped neutrality densities on the knots' flux surfaces (cubic between knots)
@@ -345,8 +354,12 @@ def run(ctx):
         "distribution": dict(dist, cases=len(cases), corpus_cases=n_corpus, points=len(all_points),
                              ill_conditioned_probe_tables=n_ill,
                              ill_conditioned_worst_deviation=float(ill[0]) if ill else None),
-        "tolerance": {"well (rates within 1 decade)": "abs 1e-9 on fractions, measured worst this run %.3g" % worst["well"],
-                      "wide (rates within 2 decades)": "abs 1e-6 on fractions, measured worst this run %.3g" % worst["wide"],
+        "tolerance": {"resolved points (every exact fraction >= 1e-12, decided by the model inside Coq)":
+                          "abs 1e-7 on fractions; %d points, worst deviation this run %.3g (calibration: 1.6e-10 over 25 000 points)"
+                          % (n_class["resolved"], worst["resolved"]),
+                      "unresolved points (some exact fraction < 1e-12: lsq_linear loses accuracy, same root cause as the recorded finding)":
+                          "AMBIGUOUS: solver outputs not compared (tolerance 1); matrix still compared; %d points, worst deviation this run %.3g"
+                          % (n_class["unresolved"], worst["unresolved"]),
                       "matrix entries": "relative 2^-46, zeros exact, rhs exact",
                       "interpolated values": "+1e-8", "neutrality charge sum": "relative 2^-40 (Coq) / 1e-9 (search)"},
         "partial": ["C09_entry_points_agree_partial: interpolators and equilibrium mapping are raysect/EFITEquilibrium objects outside "
@@ -356,7 +369,7 @@ def run(ctx):
                     "equilibrium_map3d_match_plasma_neutrality: knots' flux surfaces only, relative 1e-3 (cubic interpolation between knots)",
                     "rate tables wider than 2 decades are outside the tie because the solver itself fails there (known finding %s)" % KNOWN_KEY],
     })
-    c0 = cases[n_corpus]
+    c0 = cases[min(n_corpus, len(cases) - 1)]
     ctx.coverage["samples"] = [{"rep": c0["rep"], "Z": c0["Z"], "stream": c0["stream"], "donor": c0["donor"],
                                 "point0": {kk: c0["points"][0][kk] for kk in ("n_e", "t_e", "n_d", "ion", "rec", "cx")},
                                 "outputs0": [{"src": o["src"], "values": o["values"]} for o in c0["points"][0]["outs"]]}]
